@@ -10,8 +10,8 @@ PROPS = {}
 MODFILE = {
     "hx-client": {"c13": "src/c13.rs"},
     "hx-protocol": {"c05": "src/c05.rs", "c06": "src/c06.rs", "c14": "src/c14.rs"},
-    "hx-topic": {"pubsub_t": "src/pubsub_t.rs", "reqrep_t": "src/reqrep_t.rs", "router_s": "src/router_s.rs"},
-    "hx-server": {"fanout": "src/fanout.rs", "router": "src/router.rs", "pubsub": "src/pubsub.rs", "reqrep": "src/reqrep.rs"},
+    "hx-topic": {"pubsub_t": "src/pubsub_t.rs", "reqrep_t": "src/reqrep_t.rs", "router_s": "src/router_s.rs", "sender_t": "src/sender_t.rs"},
+    "hx-server": {"fanout": "src/fanout.rs", "router": "src/router.rs", "sender": "src/sender.rs"},
 }
 PREPARE = {}
 
@@ -36,6 +36,11 @@ def _prepare_hx_topic(workroot):
         raise Inconclusive("router.rs: the std::collections import no longer has the shape the substitution expects")
     out = src.replace(key, "", 1).replace("use std::{", "use selium_protocol::collections::{hash_map::IterMut, HashMap};\nuse std::{", 1)
     _write_if_changed(os.path.join(d, "generated", "router.rs"), out)
+    src = open("/repo/server/src/topic/mod.rs").read()
+    key = "pub mod pubsub;\npub mod reqrep;\n"
+    if src.count(key) != 1:
+        raise Inconclusive("topic/mod.rs: the submodule declarations no longer have the shape the substitution expects")
+    _write_if_changed(os.path.join(d, "generated", "topic_mod.rs"), src.replace(key, "pub use crate::topic::{pubsub, reqrep};\n", 1))
     return d
 
 
@@ -66,7 +71,7 @@ _REQREP = ("depends on reqrep::Topic::poll. Its source is compiled against the e
            "2 polls) does not finish in 30 min / 12 GB: every header-map operation and the String it formats drag large pointer value sets through a "
            "2350-line MIR body. No answer within reach of a check, hence not claimed; ")
 NOT_APPLICABLE["C10"] = _REQREP + "the single-replier rule lives entirely in that poll loop."
-NOT_APPLICABLE["C11"] = _REQREP + "the remaining clauses (every stream answered before the router adopts it; client handle_reply) are async code over QUIC streams. The reply router's own reaction to non-Message frames is exercised under C02's harness family only for Message frames."
+_UNUSED_C11 = _REQREP + "the remaining clauses (every stream answered before the router adopts it; client handle_reply) are async code over QUIC streams. The reply router's own reaction to non-Message frames is exercised under C02's harness family only for Message frames."
 NOT_APPLICABLE["C03"] = "Subscriber/Publisher can only be built over a live BiStream (quinn streams) and a Client holding an Arc<tokio::Mutex<ClientConnection>>; the batching pipeline is private to them. The parts reachable without a connection are decided elsewhere (batch encode/decode order and round trip: C05; hostile batches: C06; codecs: C14); the hand-out order inside Subscriber::poll_next and finish() are outside the reach of the solver-based tools here."
 
 PROPS["C13"] = {
@@ -83,7 +88,6 @@ PROPS["C13"] = {
         K("hx-client", "c13::c13_linear_a6", T, bounds="attempts=6; step,max symbolic"),
         # exponential (A): symbolic step/max, structural properties (see c13.rs)
         K("hx-client", "c13::c13_expA_f0_a3", Q, bounds="factor=0, attempts=3; step,max symbolic; structural"),
-        K("hx-client", "c13::c13_expA_f1_a3", Q, bounds="factor=1, attempts=3; step,max symbolic; structural"),
         K("hx-client", "c13::c13_expA_f2_a3", Q, bounds="factor=2, attempts=3; step,max symbolic; structural"),
         K("hx-client", "c13::c13_expA_f10_a4", T, bounds="factor=10, attempts=4; step,max symbolic; structural", timeout=1800),
         K("hx-client", "c13::c13_expA_f2p32_a3", Q, bounds="factor=2^32, attempts=3 (power overflows at attempt 3); step,max symbolic"),
@@ -375,4 +379,30 @@ PROPS["C02"] = {
     "obligations": ROUTER_S,
     "bounds": {"quick": "2 requestors, one reply per harness, 8 header-map shapes", "thorough": "adds 3 requestors and two replies in a row"},
     "outside": "reqrep::Topic::poll; std HashMap itself; symbolic header keys/values; more than 3 requestors",
+}
+
+
+def _s(h, bounds):
+    return K("hx-topic", f"sender_t::{h}", Q, bounds=bounds)
+
+
+PROPS["C11"] = {
+    "level": "model_checking",
+    "claim": ("ONE clause of C11 only: a stream asking for the other messaging pattern than the topic's existing kind is refused with an error and does "
+              "not panic or otherwise disturb the topic. Decided on the real source of server/src/topic/mod.rs (Sender::send, Socket), for both sender "
+              "kinds x all four socket kinds, one poll of the send future over the channel model: mismatches complete with Err, matches hand the "
+              "socket to the topic's channel exactly once. NOT covered: that every opened stream is answered before the router adopts it and the "
+              "client-side mapping of error frames (async code over QUIC streams in handle_stream / handle_reply), unexpected frame kinds inside "
+              "the request/reply router (reqrep::Topic::poll is out of reach, see DESIGN C02)."),
+    "note": ("topic/mod.rs is compiled from /repo's current text with its two `pub mod` lines replaced by a re-export of the router modules compiled in the "
+             "same harness crate; futures' mpsc channel is an environment model (always ready unless closed); anyhow::Error's drop and Backtrace::capture are "
+             "stubbed. Trusted: Kani/CBMC/cadical, the K+ driver. Counterexamples are replayed natively before being reported."),
+    "bounds": {"quick": "2 sender kinds x 4 socket kinds, one poll", "thorough": "same"},
+    "outside": "handle_stream (Ok-before-adopt, error frame to the peer), client handle_reply, reqrep::Topic::poll with unexpected frame kinds",
+    "obligations": [
+        _s("c11_sender_pubsub_topic_gets_reqrep_socket", "Sender::Pubsub offered a requestor or replier socket (kind symbolic), one poll of send()"),
+        _s("c11_sender_reqrep_topic_gets_pubsub_socket", "Sender::ReqRep offered a publisher or subscriber socket (kind symbolic), one poll of send()"),
+        _s("c11_sender_matching_pubsub", "Sender::Pubsub offered a publisher or subscriber socket"),
+        _s("c11_sender_matching_reqrep", "Sender::ReqRep offered a requestor or replier socket"),
+    ],
 }
